@@ -230,6 +230,8 @@ fn run_episode(
     let mut harness_error: Option<String> = None;
     let mut sample: Option<Value> = None;
     let mut observed_all: BTreeMap<Key, Outcome> = BTreeMap::new();
+    let mut preempt_outcomes: BTreeSet<String> = BTreeSet::new();
+    let (mut preempt_runs, mut preemptions, mut preempt_at_next_hook) = (0u64, 0u64, 0u64);
     let mut r = 0usize;
     while let Some(spec) = next_run(r) {
         r += 1;
@@ -247,7 +249,23 @@ fn run_episode(
             executed.push(explicit);
             break;
         }
-        log_hash = events_digest(log_hash, &res.events, &res.decisions);
+        if spec.preempts.is_empty() {
+            log_hash = events_digest(log_hash, &res.events, &res.decisions);
+        } else {
+            // where exactly a preemption lands is a matter of instruction counts; what the determinism comparison
+            // must see is what the builds returned, independent of how many runs the sweep needed
+            for e in &res.events {
+                if let grex_sim::exec::EvKind::Build(o) = &e.kind {
+                    preempt_outcomes.insert(format!("{}|{}|{}", workload_fingerprint(&spec), e.client, o.to_json()));
+                }
+            }
+            preempt_runs += 1;
+            preemptions += res.preemptions;
+            preempt_at_next_hook += res.preempt_at_next_hook;
+            if executed.len() > 40 {
+                executed.drain(0..executed.len() - 40);
+            }
+        }
         total_events += res.events.len() as u64;
         total_clients += spec.clients.len() as u64;
         switches += res.switches;
@@ -322,6 +340,9 @@ fn run_episode(
             }
         }
     }
+    for o in &preempt_outcomes {
+        log_hash = fnv_mix(log_hash, o.as_bytes());
+    }
     let keys: Vec<Value> = oracle
         .keys()
         .map(|(k, o)| json!([k.encode(), o.to_json()]))
@@ -342,6 +363,13 @@ fn run_episode(
         "switches": switches,
         "switches_in_build": switches_in_build,
         "lock_handovers": lock_handovers,
+        "preempt_runs": preempt_runs,
+        "preemptions": preemptions,
+        "preemptions_between_instructions": grex_sim::step::FIRED_BY_COUNT.load(Ordering::SeqCst),
+        "preemptions_at_next_hook": preempt_at_next_hook,
+        "single_step_traps": grex_sim::step::TRAPS_TOTAL.load(Ordering::SeqCst),
+        "single_steps_counted": grex_sim::step::STEPS_COUNTED.load(Ordering::SeqCst),
+        "single_step_expired": grex_sim::step::EXPIRED.load(Ordering::SeqCst),
         "critical_sites": CRITICAL_SITES.load(Ordering::SeqCst).count_ones(),
         "decisions": decisions_total,
         "stats": {
@@ -363,6 +391,114 @@ fn run_episode(
         "executed_runs": if violation.is_some() || harness_error.is_some() { json!(executed.iter().map(|s| s.to_json()).collect::<Vec<_>>()) } else { Value::Null },
     });
     EpisodeOutcome { json: js, violation }
+}
+
+/// Instruction counts swept after every hook visit (until the next hook is reached): quick / thorough.
+const PREEMPT_K_MAX: u32 = 64;
+const PREEMPT_K_MAX_THOROUGH: u32 = 160;
+/// Worker processes the preemption sweep is spread over: quick / thorough.
+const PREEMPT_EPISODES: u64 = 16;
+const PREEMPT_EPISODES_THOROUGH: u64 = 96;
+
+/// Adaptive generator of the runs of one preemption episode (see episode.rs): for each of its pairs a probe run
+/// that counts the victim's hook visits, then for every visit the instruction counts 1, 2, 3, ... until the run
+/// reports that the next hook (or the end of the call) was reached first.
+struct PreemptSweep {
+    pairs: Vec<PreemptPair>,
+    pos: usize,
+    seeds: (u64, u64),
+    rng: Rng,
+    state: u8, // 0 = emit probe, 1 = probe done, 2 = sweeping
+    visits: u64,
+    intruder_visits: u64,
+    visit: u64,
+    k: u32,
+    k_max: u32,
+    second_pass: bool,
+    parked: u64,
+    pass: u8,
+    pairs_done: u64,
+    visits_swept: u64,
+}
+
+impl PreemptSweep {
+    fn new(verif_seed: u64, tier: &str, episode: u64, n_eps: u64, k_max: u32) -> PreemptSweep {
+        let all = preempt_pairs(verif_seed, tier);
+        let pairs: Vec<PreemptPair> = all.into_iter().enumerate().filter(|(i, _)| *i as u64 % n_eps.max(1) == episode).map(|(_, p)| p).collect();
+        PreemptSweep {
+            pairs,
+            pos: 0,
+            seeds: (0, 0),
+            rng: Rng::new(derive(verif_seed, &[0x5052454D, 2, episode])),
+            state: 0,
+            visits: 0,
+            intruder_visits: 0,
+            visit: 0,
+            k: 0,
+            k_max,
+            second_pass: tier == "thorough",
+            parked: 0,
+            pass: 0,
+            pairs_done: 0,
+            visits_swept: 0,
+        }
+    }
+
+    fn next(&mut self, _r: usize) -> Option<RunSpec> {
+        loop {
+            if self.pos >= self.pairs.len() {
+                return None;
+            }
+            match self.state {
+                0 => {
+                    self.seeds = (self.rng.next_u64() | 1, self.rng.next_u64() | 1);
+                    self.state = 1;
+                    return Some(preempt_run(&self.pairs[self.pos], self.seeds, 0, 0, 0));
+                }
+                1 => {
+                    let info = grex_sim::exec::LAST_RUN_INFO.lock().unwrap().clone();
+                    self.visits = info.0.first().copied().unwrap_or(0);
+                    self.intruder_visits = info.0.get(1).copied().unwrap_or(0);
+                    self.visit = 1;
+                    self.k = 1;
+                    self.pass = 0;
+                    self.parked = 0;
+                    self.state = 2;
+                    if self.visits > 0 {
+                        return Some(preempt_run(&self.pairs[self.pos], self.seeds, self.visit, self.k, self.parked));
+                    }
+                }
+                _ => {
+                    // what did the previous run of the sweep report?
+                    let info = grex_sim::exec::LAST_RUN_INFO.lock().unwrap().clone();
+                    let victim_preemptions = info.1.saturating_sub(if self.parked > 0 { 1 } else { 0 });
+                    let reached_next_hook = info.2 > 0 || victim_preemptions == 0;
+                    if reached_next_hook || self.k >= self.k_max {
+                        self.visits_swept += 1;
+                        self.visit += 1;
+                        self.k = 1;
+                    } else {
+                        self.k += 1;
+                    }
+                    if self.visit > self.visits {
+                        // second pass for systematic pairs: the intruder is itself parked in the middle of its build
+                        if self.pass == 0 && self.second_pass && self.pairs[self.pos].systematic && self.intruder_visits > 1 {
+                            self.pass = 1;
+                            self.parked = 1 + self.rng.below(self.intruder_visits);
+                            self.visit = 1;
+                            self.k = 1;
+                        } else {
+                            self.pairs_done += 1;
+                            self.pos += 1;
+                            self.state = 0;
+                            continue;
+                        }
+                    }
+                    return Some(preempt_run(&self.pairs[self.pos], self.seeds, self.visit, self.k, self.parked));
+                }
+            }
+        }
+    }
 }
 
 fn mode_worker(args: &[String]) -> i32 {
@@ -398,7 +534,17 @@ fn mode_worker(args: &[String]) -> i32 {
     let n_sys: u64 = arg_value(args, "--systematic-episodes").and_then(|s| s.parse().ok()).unwrap_or(0);
     let episode_seed = derive(verif_seed, &[tier_code(&tier), 1, index]);
     let want_sample = has_flag(args, "--sample");
-    let out = if index >= SCENARIO_BASE {
+    let out = if index >= PREEMPT_BASE {
+        let thorough = tier == "thorough";
+        let n_eps: u64 = arg_value(args, "--preempt-episodes").and_then(|s| s.parse().ok()).unwrap_or(if thorough { PREEMPT_EPISODES_THOROUGH } else { PREEMPT_EPISODES });
+        let k_max: u32 = arg_value(args, "--preempt-kmax").and_then(|s| s.parse().ok()).unwrap_or(if thorough { PREEMPT_K_MAX_THOROUGH } else { PREEMPT_K_MAX });
+        let mut sweep = PreemptSweep::new(verif_seed, &tier, index - PREEMPT_BASE, n_eps, k_max);
+        let out = run_episode(|r| sweep.next(r), want_sample, false);
+        let mut out = out;
+        out.json["preempt_pairs"] = json!(sweep.pairs_done);
+        out.json["preempt_hook_visits_swept"] = json!(sweep.visits_swept);
+        out
+    } else if index >= SCENARIO_BASE {
         let runs = scenario_runs(index - SCENARIO_BASE, verif_seed);
         let k = index - SCENARIO_BASE;
         if (SCENARIO_MEMORY_LIMITED..SCENARIO_SYSTEMATIC_ODD_ENV).contains(&k) {
@@ -1120,7 +1266,21 @@ fn mode_run(args: &[String]) -> i32 {
 
     // scenario episodes first (the long ones should not be the last to start), then the numbered episodes
     let n_scen: u64 = if has_flag(args, "--no-scenarios") { 0 } else { SCENARIOS };
-    let indices: Arc<Vec<u64>> = Arc::new((0..n_scen).map(|k| SCENARIO_BASE + k).chain(0..episodes).collect());
+    // instruction-granular preemption sweep (x86-64 only; VERIF_NO_PREEMPT=1 or --no-preempt switches it off)
+    let n_pre: u64 = if has_flag(args, "--no-preempt") || !cfg!(target_arch = "x86_64") {
+        0
+    } else if tier == "thorough" {
+        PREEMPT_EPISODES_THOROUGH
+    } else {
+        PREEMPT_EPISODES
+    };
+    let indices: Arc<Vec<u64>> = Arc::new(
+        (0..n_scen)
+            .map(|k| SCENARIO_BASE + k)
+            .chain((0..n_pre).map(|k| PREEMPT_BASE + k))
+            .chain(0..episodes)
+            .collect(),
+    );
     let next = Arc::new(AtomicUsize::new(0));
     let results: Arc<Mutex<BTreeMap<u64, Value>>> = Arc::new(Mutex::new(BTreeMap::new()));
     let doubles: Arc<Mutex<Vec<(u64, String, String)>>> = Arc::new(Mutex::new(vec![]));
@@ -1163,8 +1323,8 @@ fn mode_run(args: &[String]) -> i32 {
             }
             match res {
                 Ok(v) => {
-                    if double_every > 0 && i % double_every == 0 && i < SCENARIO_BASE + SCENARIO_MEMORY_LIMITED {
-                        match spawn_worker(verif_seed, &tier, i, n_sys, sample, 180) {
+                    if double_every > 0 && ((i % double_every == 0 && i < SCENARIO_BASE + SCENARIO_MEMORY_LIMITED) || i == PREEMPT_BASE) {
+                        match spawn_worker(verif_seed, &tier, i, n_sys, sample, 1800) {
                             Ok(v2) => {
                                 // a run in which the scheduler had to break a lock held across a switch point is
                                 // timing-dependent by construction (only possible with such a lock in the code
@@ -1241,6 +1401,7 @@ fn mode_run(args: &[String]) -> i32 {
     for (i, v) in &results {
         for k in [
             "runs", "clients", "events", "builds", "getrandom_calls", "getrandom_unowned", "clock_reads_simulated", "clock_jumps_injected", "hash_streams", "switches", "switches_in_build", "lock_handovers", "decisions", "schedule_fps",
+            "preempt_runs", "preemptions", "preemptions_between_instructions", "preemptions_at_next_hook", "single_step_traps", "single_steps_counted", "single_step_expired", "preempt_pairs", "preempt_hook_visits_swept",
         ] {
             *agg.entry(k.to_string()).or_insert(0) += v[k].as_u64().unwrap_or(0);
         }
@@ -1508,6 +1669,18 @@ fn mode_run(args: &[String]) -> i32 {
             "episodes_per_hour": (n_eps as f64 / wall * 3600.0) as u64,
             "simulated_time": "none: grex reads no clock and sets no timer; logical steps are reported instead",
             "logical_steps": {"api_events": agg.get("events"), "scheduler_decisions": agg.get("decisions"), "context_switches": agg.get("switches"), "context_switches_inside_build": agg.get("switches_in_build"), "handovers_forced_by_a_lock_held_across_a_switch_point": agg.get("lock_handovers")},
+            "instruction_granular_preemption": {
+                "episodes": n_pre,
+                "two_client_worlds_swept": agg.get("preempt_pairs"),
+                "hook_visits_swept": agg.get("preempt_hook_visits_swept"),
+                "instruction_counts_per_visit": format!("1..={} (until the next hook is reached)", if tier == "thorough" { PREEMPT_K_MAX_THOROUGH } else { PREEMPT_K_MAX }),
+                "runs": agg.get("preempt_runs"),
+                "preemptions_between_two_instructions": agg.get("preemptions_between_instructions"),
+                "preemptions_carried_out_at_the_next_hook_instead": agg.get("preemptions_at_next_hook"),
+                "single_step_traps": agg.get("single_step_traps"),
+                "instructions_counted_inside_the_executable": agg.get("single_steps_counted"),
+                "stepping_given_up_in_a_long_excursion_outside_the_executable": agg.get("single_step_expired"),
+            },
             "distinct_schedules_sum_over_episodes": agg.get("schedule_fps"),
             "hash_key_streams": agg.get("hash_streams"),
             "getrandom_calls_served": agg.get("getrandom_calls"),
@@ -1533,7 +1706,7 @@ fn mode_run(args: &[String]) -> i32 {
             "samples": samples,
             "violations": violations.len(),
             "real_code": ["grex (all of build())", "regex", "petgraph", "ndarray", "std collections + SipHash", "std threads / sync"],
-            "stubbed": ["source of hash keys (getrandom)", "choice of which caller thread runs (baton)"],
+            "stubbed": ["source of hash keys (getrandom)", "choice of which caller thread runs (baton, at hook points and API boundaries; between single instructions in the preemption sweep)"],
         });
         std::fs::write(&p, serde_json::to_string_pretty(&ev).unwrap()).ok();
     }
